@@ -26,6 +26,8 @@ HEADER = "".join("Die Zahl %s ist %d.\n" % (v, i + 1) for i, v in enumerate(VARS
 def rand_tree(rng, depth):
     if depth == 0 or rng.chance(1, 4):
         return ("atom", rng.below(9))
+    if rng.chance(1, 9):
+        return ("xor", rand_tree(rng, depth - 1), rand_tree(rng, depth - 1))
     if rng.chance(1, 6):
         return ("ite", rand_tree(rng, depth - 1), rand_tree(rng, depth - 1), rand_tree(rng, depth - 1))
     if rng.chance(1, 5):
@@ -34,9 +36,15 @@ def rand_tree(rng, depth):
 
 
 def pp(e, k, rng=None):
-    """DDP.LadderParse.pp (k = chain rung asked for) / ppI (k = -1: a whole expression); with rng: redundant parentheses now and then"""
+    """DDP.LadderParse.pp (k = chain rung asked for) / ppI (k = -1: a whole expression) / ppX (k = -2: value operand of a
+    conditional expression); with rng: redundant parentheses now and then"""
+    if e[0] == "xor":
+        body, need = ["x"] + pp(e[1], 0, rng) + ["y"] + pp(e[2], 0, rng), k >= 0
+        if need or (rng is not None and rng.chance(1, 7)):
+            return ["("] + body + [")"]
+        return body
     if e[0] == "ite":
-        body, need = pp(e[1], 0, rng) + ["f"] + pp(e[2], -1, rng) + ["s"] + pp(e[3], -1, rng), k >= 0
+        body, need = pp(e[1], -2, rng) + ["f"] + pp(e[2], -1, rng) + ["s"] + pp(e[3], -1, rng), k != -1
         if need or (rng is not None and rng.chance(1, 7)):
             return ["("] + body + [")"]
         return body
@@ -46,7 +54,7 @@ def pp(e, k, rng=None):
         body, need = ["u%d" % e[1]] + pp(e[2], N, rng), False
     else:
         lv = LV[e[1]]
-        body, need = pp(e[2], lv, rng) + ["o%d" % e[1]] + pp(e[3], lv + 1, rng), lv < k
+        body, need = pp(e[2], lv, rng) + ["o%d" % e[1]] + pp(e[3], lv + 1, rng), lv < k       # k < 0: a whole expression, never parenthesised
     if need or (rng is not None and rng.chance(1, 7)):
         return ["("] + body + [")"]
     return body
@@ -55,6 +63,8 @@ def pp(e, k, rng=None):
 def show(e):
     if e[0] == "ite":
         return "(ite %s %s %s)" % (show(e[1]), show(e[2]), show(e[3]))
+    if e[0] == "xor":
+        return "(xor %s %s)" % (show(e[1]), show(e[2]))
     if e[0] == "atom":
         return "(atom %d)" % e[1]
     if e[0] == "un":
@@ -80,6 +90,8 @@ def raw_sequence(rng):
         if rng.chance(1, 9):      # a conditional expression starts here; its two further operands are atoms or groups of their own
             toks += ["f", "a%d" % rng.below(9), "s"] if rng.chance(2, 3) else ["f", "(", "a%d" % rng.below(9), "o%d" % rng.below(len(OPS)), "a%d" % rng.below(9), ")", "s"]
             toks.append("a%d" % rng.below(9))
+        if rng.chance(1, 14):     # an `entweder` group of its own as operand
+            toks += ["o%d" % rng.below(len(OPS)), "(", "x", "a%d" % rng.below(9), "o%d" % rng.below(len(OPS)), "a%d" % rng.below(9), "y", "a%d" % rng.below(9), ")"]
         while open_ and rng.chance(1, 3):
             toks.append(")")
             open_ -= 1
@@ -88,7 +100,7 @@ def raw_sequence(rng):
 
 
 def soup(rng):
-    alphabet = ["a1", "a5", "o5", "o8", "o1", "u0", "u2", "(", ")", "f", "s"]
+    alphabet = ["a1", "a5", "o5", "o8", "o1", "u0", "u2", "(", ")", "f", "s", "x", "y"]
     return [rng.choice(alphabet) for _ in range(1 + rng.below(6))]
 
 
@@ -101,6 +113,10 @@ def spell(toks):
             out.append(", falls")
         elif t == "s":
             out.append(", ansonsten")
+        elif t == "x":
+            out.append("entweder")
+        elif t == "y":
+            out.append(", oder")
         elif t[0] == "a":
             n = int(t[1:])
             out.append(VARS[n] if n < len(VARS) else str(n))
@@ -119,7 +135,7 @@ def real_to_model(s):
         s = s.replace("(un %s " % name, "(un %d " % i)
     for i, v in enumerate(VARS):
         s = s.replace("(var %s)" % v, "(atom %d)" % i)
-    return s.replace("(int ", "(atom ").replace("(ter falls ", "(ite ")
+    return s.replace("(int ", "(atom ").replace("(ter falls ", "(ite ").replace("(bin entweder_..._oder ", "(xor ")
 
 
 def run(res, harness, model, ddp, seed, n_trees, n_raw, n_soup):
